@@ -276,10 +276,9 @@ Definition add_symbol (id : ipath) (sym : symbol) : M nat := fun c =>
       match try_get (symbols c) nx with
       | Some existing =>
           if redefinition existing sym then
-            match s_span sym with
-            | None => Abort FPanic                                   (* expect("no span provided") *)
-            | Some sp => Err [mkDiag DRedefine (Some sp) path []] c
-            end
+            (* d187598: `symbol.span.or(existing.span)` labels the diagnostic (a span-less symbol of the assembler itself,
+               `segments.<n>.start`, is reported where the program defined that name); before: expect("no span provided") *)
+            Err [mkDiag DRedefine (match s_span sym with Some sp => Some sp | None => s_span existing end) path []] c
           else
             let differs := negb (sdata_eqb (s_data existing) (s_data sym)) in
             let c1 := set_symbols c (update_data (symbols c) nx (Some sym)) in
@@ -509,7 +508,7 @@ Definition define_segment (idspan : span) (l : list cfgpair) : M unit :=
       initial_pc <- (match try_get_expression l t_start with
                      | Some e => v <- recover (evaluate_expression_as_i64 e) None ;;   (* "Will be marked as undefined and retried later" *)
                                  match v with
-                                 | Some v => if negb ((0 <=? v) && (v <=? 65536)) then err1 DPcRange None [t_start] [v]   (* C06: check_address *)
+                                 | Some v => if negb ((0 <=? v) && (v <=? 65535)) then err1 DPcRange None [t_start] [v]   (* C06: check_address, 0..=$ffff (4adc08f) *)
                                              else ret (as_usize v)
                                  | None => ret 0
                                  end
@@ -531,7 +530,7 @@ Definition define_segment (idspan : span) (l : list cfgpair) : M unit :=
       target <- (match try_get_expression l t_pc with
                  | Some e => v <- evaluate_expression_as_i64 e ;;
                              match v with
-                             | Some t => if negb ((0 <=? t) && (t <=? 65536)) then err1 DPcRange None [t_pc] [t]   (* C06: check_address *)
+                             | Some t => if negb ((0 <=? t) && (t <=? 65535)) then err1 DPcRange None [t_pc] [t]   (* C06: check_address, 0..=$ffff (4adc08f) *)
                                          else ret (as_usize t)
                              | None => ret initial_pc
                              end
@@ -832,15 +831,24 @@ Fixpoint emit_token (fuel : nat) (t : token) : M unit :=
 (* ------------------------------------------------------------------ passes *)
 (* register_all_segment_symbols: `segments` is taken out of the context while the symbols are added, so
    current_segment resolves to nothing and `symbol()` still records its name *)
+(* `if let Err(e) = m { errors.extend(e) }` ; k ; `if errors.is_empty() { Ok(()) } else { Err(errors) }` (d187598) *)
+Definition collecting {A} (m : M A) (k : M unit) : M unit := fun c =>
+  match m c with
+  | Ret _ c1 => k c1
+  | Err ds c1 => match k c1 with
+                 | Ret _ c2 => Err ds c2
+                 | Err ds2 c2 => Err (ds ++ ds2) c2
+                 | Abort f => Abort f
+                 end
+  | Abort f => Abort f
+  end.
 Fixpoint register_segment_symbols (l : list (ident * segment)) : M unit :=
   match l with
   | [] => ret tt
   | (name, s) :: r =>
-      c <- get ;;
-      add_symbol [t_segments; name; t_start] (symbol_ c None (SDNum (usize_as_i64 (fst (g_range s)))) TyConstant) ;;;
-      c <- get ;;
-      add_symbol [t_segments; name; t_end] (symbol_ c None (SDNum (usize_as_i64 (snd (g_range s)))) TyConstant) ;;;
-      register_segment_symbols r
+      collecting (c <- get ;; add_symbol [t_segments; name; t_start] (symbol_ c None (SDNum (usize_as_i64 (fst (g_range s)))) TyConstant))
+        (collecting (c <- get ;; add_symbol [t_segments; name; t_end] (symbol_ c None (SDNum (usize_as_i64 (snd (g_range s)))) TyConstant))
+           (register_segment_symbols r))
   end.
 Definition after_pass : M unit := c <- get ;; register_segment_symbols (segments c).
 
@@ -863,7 +871,7 @@ Definition run_pass (fuel : nat) (toks : list token) (c : ctx) : pass_out :=
   let finish (errs : list diag) (c1 : ctx) :=
     match after_pass c1 with
     | Ret _ c2 => PassOk errs c2
-    | Err _ _ => PassAbort FPanic                   (* .expect("Could not finalize pass") *)
+    | Err ds2 c2 => PassOk (errs ++ ds2) c2         (* d187598: `if let Err(e) = ctx.after_pass() { errors.extend(e) }` *)
     | Abort f => PassAbort f
     end in
   match emit_tokens (emit_token fuel) toks c with
